@@ -1,6 +1,8 @@
 import NeumannModel.Snap.Model
+import NeumannModel.Codec.Props
 /-
-  Helper lemmas for the snapshot properties (C07). Core Lean only.
+  Helper lemmas for the snapshot properties (C07). Core Lean only, plus the id-list codec's
+  round-trip theorem from C20 (`Codec.Props.decompress_compress_ids`).
 -/
 namespace Neumann.Snap
 
@@ -141,17 +143,53 @@ theorem scatter_sparse_by (keep : Nat → Bool) (v : List Nat) : ∀ (pre : List
         simp [hb0]
       rw [this, ihb]; simp
 
-theorem scatter_sparse (v : List Nat) (pre : List Nat)
-    (hz : SmallAreZero v) (hlen : pre.length + v.length ≤ U32) :
-    scatter (pre ++ List.replicate v.length 0) (sparsePositions pre.length v) (sparseValues pre.length v)
-      = pre ++ v :=
-  scatter_sparse_by isBig v pre hz hlen
-
-/-- the fixed criterion drops nothing but `+0.0` -/
+/-- the criterion of the code drops nothing but `+0.0` -/
 theorem droppedAreZero_notPlusZero (v : List Nat) : DroppedAreZero notPlusZero v := by
   intro b _
   by_cases h : b = 0
   · exact .inr h
   · left; simp [notPlusZero, h]
+
+/-- the sparse form of the code is lossless: no condition on the entries -/
+theorem scatter_sparse (v : List Nat) (pre : List Nat) (hlen : pre.length + v.length ≤ U32) :
+    scatter (pre ++ List.replicate v.length 0) (sparsePositions pre.length v) (sparseValues pre.length v)
+      = pre ++ v :=
+  scatter_sparse_by notPlusZero v pre (droppedAreZero_notPlusZero v) hlen
+
+/-- the sparse form before 56197952 needed the small entries to be `+0.0` already -/
+theorem scatter_sparse_old (v : List Nat) (pre : List Nat)
+    (hz : SmallAreZero v) (hlen : pre.length + v.length ≤ U32) :
+    scatter (pre ++ List.replicate v.length 0) (sparsePositionsOld pre.length v) (sparseValuesOld pre.length v)
+      = pre ++ v :=
+  scatter_sparse_by isBig v pre hz hlen
+
+/-! ### casts and the id-list codec -/
+
+/-- `x as u64` fits u64 -/
+theorem f32ToU64_lt (x : Nat) : f32ToU64 x < U64 := by
+  unfold f32ToU64 U64
+  simp only []
+  repeat' split
+  all_goals omega
+
+theorem map_f32ToU64_lt (v : List Nat) : ∀ x ∈ v.map f32ToU64, x < Codec.U64 := by
+  intro x hx
+  obtain ⟨y, _, rfl⟩ := List.mem_map.1 hx
+  exact f32ToU64_lt y
+
+/-- positions of a `SparseVector` are `u32`: the `as u32` on load is the identity -/
+theorem map_mod_U32 (ps : List Nat) (h : ∀ p ∈ ps, p < U32) : ps.map (· % U32) = ps := by
+  induction ps with
+  | nil => rfl
+  | cons p ps ih =>
+    simp only [List.map_cons]
+    rw [ih (fun q hq => h q (List.mem_cons_of_mem _ hq)), Nat.mod_eq_of_lt (h p (by simp))]
+
+/-- the positions of a sparse value survive `compress_ids` / `decompress_ids` / `as u32` -/
+theorem sparse_positions_roundtrip (ps : List Nat) (h : ∀ p ∈ ps, p < U32) :
+    (Codec.decompressIds (Codec.compressIds ps)).map (· % U32) = ps := by
+  rw [Codec.Props.decompress_compress_ids ps (fun x hx => by
+    have := h x hx; unfold U32 at this; unfold Codec.U64; omega)]
+  exact map_mod_U32 ps h
 
 end Neumann.Snap
